@@ -415,6 +415,9 @@ def _filter_through(c, which):
                 note=f"names={tx.fields['names']} values={len(tx.fields['values'])}", only=["C04"])
     if which == "intercept":
         c.prove("declined-is-ABSENT", True if n else it.is_term(res, it.models.absent(it)))
+        # the tentative value (ptera's ABSENT marker for a variable that is only declared) is shown to the override and to nothing else: it
+        # is not a value the variable took, so it must not stay in the accumulator, where Total.log would append to it and the close
+        # event would carry it (C16 "never ... in an event", C07 "all the values it took ... and nothing else")
         c.prove("tentative-removed", "x" not in frk.fields["captures"])
 
 
@@ -425,7 +428,7 @@ def u_trigger_filter(c):
     _filter_through(c, "trigger")
 
 
-@unit("intercept-filter", ["C12", "C04"], [I + ":BaseAccumulator.intercept", I + ":BaseAccumulator._call_with_snapshot",
+@unit("intercept-filter", ["C12", "C04", "C16", "C07"], [I + ":BaseAccumulator.intercept", I + ":BaseAccumulator._call_with_snapshot",
                                           I + ":BaseAccumulator.build", I + ":BaseAccumulator.fork", I + ":Capture.snapshot", I + ":Capture.set"])
 def u_intercept_filter(c):
     """An override attached to a constrained selector is applied under the same condition and not otherwise."""
